@@ -137,6 +137,7 @@ func execBatch(a []string) (res Result) {
 		return Result{Impl: "concretise-error:" + err.Error()}
 	}
 	seed := int64(atoi(a[2]))
+	cw.forgeReports = seed%4 == 0
 	old := runtime.GOMAXPROCS(atoi(a[3]))
 	defer runtime.GOMAXPROCS(old)
 	conc := atoi(a[4])
